@@ -798,6 +798,41 @@ func (c *e5Ctx) transfer(w *world, ins ssa.Instruction) bool {
 			}
 		}
 	}
+	// a slice of the message's Body/Header that was read while the message was live is the
+	// message's buffer: indexing, slicing, ranging over it or passing it on after the release
+	// reads a buffer that is back in the pool (`body := m.Body; m.Free(); write(body)`)
+	{
+		bufUse := func(v ssa.Value, what string) {
+			mv, fld := derivedFromMsg(v)
+			if mv == nil {
+				return
+			}
+			// only through a value that was loaded earlier: a fresh m.Body after the release
+			// is reported as an access to the message itself
+			o, ok := c.origin(w, mv)
+			if !ok || o == nil {
+				return
+			}
+			s := w.o[o]
+			if s.st == stFreed && s.k == 0 {
+				c.issue("buffer-after-release", ins, c.describe(o), fmt.Sprintf("%s of the message's %s (read before) after the message was freed at %s: the buffer is back in the pool and may already hold another message", what, fld, s.where))
+			}
+		}
+		switch x := ins.(type) {
+		case *ssa.IndexAddr:
+			bufUse(x.X, "indexing")
+		case *ssa.Slice:
+			bufUse(x.X, "slicing")
+		case *ssa.Range:
+			bufUse(x.X, "ranging")
+		case *ssa.Call:
+			if bi, isB := x.Call.Value.(*ssa.Builtin); !(isB && (bi.Name() == "len" || bi.Name() == "cap")) {
+				for _, a := range x.Call.Args {
+					bufUse(a, "passing on")
+				}
+			}
+		}
+	}
 	switch x := ins.(type) {
 	case *ssa.Panic:
 		return true
